@@ -19,6 +19,7 @@ RULE = ("random host programs over if_eq/ne/lt/ge/ez/nz (context and callback fo
         "registers, and every host handle created so far."
         ' A register-handle family measures again into existing RegFuture handles in the same and in later flush segments and branches on them. '
         ' Counted loops include steps that do not divide the range and empty ranges; add operands are passed both as register handles (RegFuture) and as registers. '
+        " The host re-uses the list it passed as initial values of an array before the flush (every other array). Demonstration programs of known findings: a register handle kept across a flush; a RegFuture measured into twice with a condition opened in between. "
         "Non-trivial = direct evaluation executed at least one "
         "conditional body or loop iteration and >= 2 subroutines or >= 12 operations; distinct = distinct (program, script).")
 ASSUMPTIONS = [
